@@ -11,6 +11,12 @@ def mc(chk, cov):
             ("Forwarder_quick_inorder.cfg", 900), ("Forwarder_live.cfg", 900), ("Forwarder_stop.cfg", 900)]
     st = tr = 0
     cov["mc_runs"] = []
+    # refinement: the impl-shaped spec implements AtLeastOnceLink, the client the agent-level spec assumes (temporal property)
+    for cfg in (["ForwarderRef_thorough.cfg"] if thorough else ["ForwarderRef.cfg"]) + ["ForwarderRef_inorder.cfg"]:
+        rr = chk.tlc_mc("ForwarderRef", cfg, timeout=3000)
+        cov["mc_runs"].append({"cfg": cfg, "distinct": rr.get("distinct"), "generated": rr.get("generated"), "ok": rr["ok"], "wall_s": rr["wall_s"]})
+        if not rr["ok"]:
+            raise vlib.Inconclusive("Forwarder does not refine AtLeastOnceLink (spec-level):\n" + rr.get("counterexample", "")[:3000])
     for cfg, to in runs:
         r = chk.tlc_mc("Forwarder", cfg, timeout=to)
         cov["mc_runs"].append({"cfg": cfg, "distinct": r.get("distinct"), "generated": r.get("generated"), "ok": r["ok"],
